@@ -318,6 +318,20 @@ func (c *Cluster) probe(ctx context.Context, sc *DkgScenario, parts []uint64, co
 // runDuties routes duties to instances and reports which partial signatures were obtained; at the end it tries
 // to recover a composite signature per duty from the partial signatures collected.
 func (c *Cluster) runDuties(ctx context.Context, sc *DkgScenario, infos map[uint64]AccountInfo, composite string, log *Log) {
+	shares := map[uint64][]byte{}
+	for id, info := range infos {
+		shares[id], _ = hex.DecodeString(info.Share)
+	}
+	runDutiesWith(ctx, sc, shares, func(id uint64) SignerAPI {
+		if in := c.Inst[id]; in != nil {
+			return in.St.Sig
+		}
+		return nil
+	}, composite, log)
+}
+
+// runDutiesWith routes the duties to instances reached through api (in-process handlers or gRPC clients of real binaries).
+func runDutiesWith(ctx context.Context, sc *DkgScenario, shares map[uint64][]byte, api func(uint64) SignerAPI, composite string, log *Log) {
 	type got struct {
 		root [32]byte
 		sigs map[uint64]bls.Sign
@@ -327,12 +341,12 @@ func (c *Cluster) runDuties(ctx context.Context, sc *DkgScenario, infos map[uint
 	attDomain := domainBytes("att", 0x66)
 	propDomain := domainBytes("prop", 0x66)
 	for n, d := range sc.Duties {
-		in := c.Inst[d.Inst]
+		in := api(d.Inst)
 		if in == nil {
 			continue
 		}
 		cctx := credsCtx(WithRid(ctx, fmt.Sprintf("duty%d", n)), "c1", "")
-		share, _ := hex.DecodeString(infos[d.Inst].Share)
+		share := shares[d.Inst]
 		var root [32]byte
 		var sig []byte
 		state := "ERROR"
@@ -346,7 +360,7 @@ func (c *Cluster) runDuties(ctx context.Context, sc *DkgScenario, infos map[uint
 			} else {
 				req.Id = &pb.SignBeaconProposalRequest_Account{Account: sc.Account}
 			}
-			if res, err := in.St.SignerH.SignBeaconProposal(cctx, roundTrip(req, &pb.SignBeaconProposalRequest{})); err == nil {
+			if res, err := in.SignBeaconProposal(cctx, roundTrip(req, &pb.SignBeaconProposalRequest{})); err == nil {
 				state, sig = res.GetState().String(), res.GetSignature()
 			}
 		default:
@@ -372,11 +386,11 @@ func (c *Cluster) runDuties(ctx context.Context, sc *DkgScenario, infos map[uint
 						Data: &pb.AttestationData{Slot: 1, CommitteeIndex: 1, BeaconBlockRoot: rootBytes("F"),
 							Source: &pb.Checkpoint{Epoch: d.Filler, Root: rootBytes("f")}, Target: &pb.Checkpoint{Epoch: d.Filler + 1, Root: rootBytes("g")}}})
 				}
-				if res, err := in.St.SignerH.SignBeaconAttestations(cctx, roundTrip(req, &pb.SignBeaconAttestationsRequest{})); err == nil && len(res.GetResponses()) > 0 {
+				if res, err := in.SignBeaconAttestations(cctx, roundTrip(req, &pb.SignBeaconAttestationsRequest{})); err == nil && len(res.GetResponses()) > 0 {
 					state, sig = res.GetResponses()[0].GetState().String(), res.GetResponses()[0].GetSignature()
 				}
 			default:
-				if res, err := in.St.SignerH.SignBeaconAttestation(cctx, roundTrip(one, &pb.SignBeaconAttestationRequest{})); err == nil {
+				if res, err := in.SignBeaconAttestation(cctx, roundTrip(one, &pb.SignBeaconAttestationRequest{})); err == nil {
 					state, sig = res.GetState().String(), res.GetSignature()
 				}
 			}
